@@ -112,10 +112,10 @@ def expand(steps, fault, at):
     return fault.endswith('_stalled'), evs
 
 
-def crash_cases(skind, alphabet, maxlen, faults=FAULTS, start=0):
+def crash_cases(skind, alphabet, maxlen, faults=FAULTS, start=0, minlen=1):
     out = []
     n = start
-    for ln in range(1, maxlen + 1):
+    for ln in range(minlen, maxlen + 1):
         for steps in itertools.product(alphabet, repeat=ln):
             for fault in faults:
                 for at in range(ln + 1):
@@ -284,7 +284,7 @@ def oracle(cfg, evs, summ, ptimeout):
             # its processing_timeout fired before it was done (before the loss, or while it was
             # still reacting to the cancellation): the TaskTimeout path ends it, not a cancellation
             overrun = ptimeout is not None and r['done_at'] is not None \
-                and r['done_at'] >= r['start'] + ptimeout
+                and r['done_at'] >= r['arrived'] + ptimeout
             if not overrun:
                 bad.append(('c08:handler-not-cancelled',
                             f'handler {hid} ({r["kind"]}) was running when the connection was '
@@ -373,7 +373,16 @@ def model_line(ctx, cfg, evs):
     return f'{rt} {int(bool(cfg["stalled"]))} ; ' + ' ; '.join(W.ser(e) for e in evs)
 
 
-def evaluate(ctx, jobs, res, label):
+def evaluate(ctx, jobs, res, label, chunk=40000):
+    """in chunks, so that nothing more is explored once something failed"""
+    for i in range(0, len(jobs), chunk):
+        if res.failed and i:
+            res.count(f'{label}_skipped_after_failure', len(jobs) - i)
+            break
+        _evaluate(ctx, jobs[i:i + chunk], res, label)
+
+
+def _evaluate(ctx, jobs, res, label):
     results = run_all(ctx, jobs)
     lts_idx = [i for i, r in enumerate(results) if r[1] is not None]
     model = ctx.model([model_line(ctx, *jobs[i]) for i in lts_idx]) if lts_idx else []
@@ -442,18 +451,17 @@ def run(ctx):
                                  'stalled': stalled}, expand_lts(letters, skind)))
                     n += 1
     lts += [random_lts_case(ctx.rng) for _ in range(30000 if ctx.deep else 3000)]
-    evaluate(ctx, lts, res, 'lifecycle')
+    if not res.failed:
+        evaluate(ctx, lts, res, 'lifecycle')
     res['scopes']['lifecycle'] = {'scopes': [[a, m] for a, m in scopes], 'cases': len(lts)}
 
     # crash-point enumeration
     jobs = crash_cases('rpc', RPC_STEPS_QUICK, 3)
     jobs += crash_cases('msg', MSG_STEPS_QUICK, 3, start=1)
     main_faults = ['drop', 'close', 'close2_stalled', 'handler_close', 'abort']
-    if ctx.deep:
-        jobs += [j for j in crash_cases('rpc', RPC_STEPS_QUICK, 4, faults=main_faults)
-                 if len(j[1]) >= 5]
-        jobs += [j for j in crash_cases('msg', MSG_STEPS_QUICK, 4, faults=main_faults, start=1)
-                 if len(j[1]) >= 5]
+    if ctx.deep and not res.failed:
+        jobs += crash_cases('rpc', RPC_STEPS_QUICK, 4, faults=main_faults, minlen=4)
+        jobs += crash_cases('msg', MSG_STEPS_QUICK, 4, faults=main_faults, start=1, minlen=4)
         jobs += crash_cases('rpc', RPC_STEPS_FULL, 2)
         jobs += crash_cases('msg', MSG_STEPS_FULL, 2, start=1)
     else:
@@ -468,9 +476,10 @@ def run(ctx):
         'full_alphabet_max_len': 2 if ctx.deep else 1,
         'faults': FAULTS, 'runs': len(jobs)}
     rnd = random_crash_cases(ctx.rng, 80000 if ctx.deep else 5000, 8 if ctx.deep else 6)
-    evaluate(ctx, rnd, res, 'crashpoint_random')
+    if not res.failed:
+        evaluate(ctx, rnd, res, 'crashpoint_random')
     res['scopes']['crashpoint_random'] = len(rnd)
-    return res.finish(RULE, exhaustive=True)
+    return res.finish(RULE, exhaustive=not res.failed)
 
 
 def replay(ctx, case):
